@@ -4,6 +4,7 @@ import (
 	"flag"
 	"fmt"
 	"os"
+	"strings"
 
 	"verifharness/internal/drv"
 	"verifharness/internal/report"
@@ -88,7 +89,7 @@ func routingDiff(args []string) {
 		tags[c.Tag]++
 		for k, v := range c.Spec {
 			specs[k+"="+v]++
-			if k != "WF" && v != "1" && c.Spec["WF"] == "1" && specs["shown"] < *show {
+			if strings.HasPrefix(k, "C") && v != "1" && c.Spec["WF"] == "1" && (k != "C02" || (c.Spec["noRootRegex"] == "1" && c.Spec["bodyCoherent"] == "1")) && specs["shown"] < *show {
 				specs["shown"]++
 				fmt.Printf("SPEC-FAIL %s real=%s model=%s\n  %v\n", k, c.RealS, c.ModelS, routing.Human(c.Cfg, c.Req))
 			}
